@@ -128,6 +128,14 @@ func (sc *scen) bump(p *int)    { sc.mu.Lock(); *p++; sc.mu.Unlock() }
 // watch books the requests that reach an instance through a real client's round tripper.
 func (sc *scen) watch(ins ...*instance) {
 	for _, in := range ins {
+		in.onPanic = func(c *call) {
+			// not a clause of the statement by itself, but the only way shared (pooled) handshake state
+			// shows up without the race detector; the driver treats a crashed child the same way
+			sc.bump(&sc.nviol)
+			first := strings.SplitN(c.panicked, "\n", 2)[0]
+			sc.r.Violation("server-panic/"+strings.SplitN(sc.caseID, "/", 2)[0], sc.caseID, "ServeHTTP panicked: "+first,
+				map[string]any{"instance": in.name, "request_host": c.host, "request_authorization": c.authz, "panic": c.panicked})
+		}
 		in.viaClient = func(c *call) {
 			sc.eval()
 			switch {
@@ -343,7 +351,7 @@ func editBlobAt(pi int, f func(blob []byte) []byte) paramOp {
 func (sc *scen) valueMutations(base []kv, stride func(k string) int, emit func(kind, desc string, op paramOp)) {
 	masks := []byte{0x01}
 	if !sc.r.Quick() {
-		masks = []byte{0x01, 0x20, 0x80}
+		masks = []byte{0x01, 0x02, 0x04, 0x08, 0x10, 0x20, 0x40, 0x80}
 	}
 	for pi, p := range base {
 		k, v := p.k, p.v
@@ -364,7 +372,7 @@ func (sc *scen) valueMutations(base []kv, stride func(k string) int, emit func(k
 			for i := sc.rng.IntN(st); i < len(blob); i += st {
 				bits := []int{i % 8}
 				if !sc.r.Quick() {
-					bits = []int{0, 7, (i + 3) % 8}
+					bits = []int{0, 1, 2, 3, 4, 5, 6, 7}
 				}
 				for _, bit := range bits {
 					emit("flip-blob/"+k, fmt.Sprintf("byte=%d/%d bit=%d", i, len(blob), bit), editBlobAt(pi, func(b []byte) []byte {
@@ -533,10 +541,25 @@ func (sc *scen) serverCase(host string, victim, att *ident, flow string) {
 	// 1. the REAL client makes the valid exchange that is then mutated
 	rc := newRealClient(sc, victim, 0)
 	proofReq, bearerReq := rc.capture(S, host, flow)
+	tok := ""
 	if proofReq == nil || bearerReq == nil {
+		// the hand-made attacks below do not need the capture: a tree on which honest handshakes fail
+		// may still accept dishonest ones
 		sc.count("real_client_capture_failed")
-		return
+	} else {
+		tok = sc.capturedAttacks(host, other, victim, att, flow, proofReq, bearerReq)
 	}
+
+	// 8. the attacker re-signs
+	sc.resignAttacks(S, host, other, victim, att, tok)
+
+	// 9. edits INSIDE the blobs, MAC kept / replaced
+	sc.blobEdits(S, host, other, victim, att)
+}
+
+// capturedAttacks: everything that starts from the valid exchange the real client made.
+func (sc *scen) capturedAttacks(host, other string, victim, att *ident, flow string, proofReq, bearerReq *call) string {
+	S := sc.S
 	base := orderedParams(proofReq.authz[0])
 	tokenHdr := orderedParams(bearerReq.authz[0])
 	if r := sc.r; r.SampleN() < 3 && sc.caseID[len(sc.caseID)-1] == 't' {
@@ -648,12 +671,7 @@ func (sc *scen) serverCase(host string, victim, att *ident, flow string) {
 	send("cross-use", "bearer-as-opaque-keeping-sig", setParam(base, "opaque", tok))
 	send("cross-use", "bearer-and-proof-together", append(append([]kv(nil), base...), kv{"bearer", b64(rngBytes(sc.rng, 64))}))
 	send("cross-use", "garbage-proof-and-valid-bearer", []kv{{"opaque", b64(rngBytes(sc.rng, 64))}, {"sig", b64(rngBytes(sc.rng, 64))}, {"bearer", tok}})
-
-	// 8. the attacker re-signs
-	sc.resignAttacks(S, host, other, victim, att, tok)
-
-	// 9. edits INSIDE the blobs, MAC kept / replaced
-	sc.blobEdits(S, host, other, victim, att)
+	return tok
 }
 
 // resignAttacks: an attacker who holds valid keys of his own (and, for the wrong-pre-image variants, the
@@ -734,6 +752,14 @@ func (sc *scen) resignAttacks(S *instance, host, other string, victim, att *iden
 				variant{"server-role-keys", signedData(kv{"challenge-server", chC}, kv{"client-public-key", spk}, kv{"hostname", host})},
 				variant{"keys-renamed", signedData(kv{"challenge", chC}, kv{"public-key", spk}, kv{"host", host})},
 			)
+			// every field: empty, first half only, one byte appended
+			for i, p := range full {
+				vs = append(vs,
+					variant{p.k + "=empty-value", signedData(sub(i, "")...)},
+					variant{p.k + "=first-half", signedData(sub(i, p.v[:len(p.v)/2])...)},
+					variant{p.k + "=second-half", signedData(sub(i, p.v[len(p.v)/2:])...)},
+					variant{p.k + "=plus-one-byte", signedData(sub(i, p.v+"\x00")...)})
+			}
 			for _, v := range vs {
 				send("resign:wrong-preimage/"+flow+"/"+who, v.name, host, proof(flow, signer, sign(signer, v.data), opq))
 			}
